@@ -573,6 +573,9 @@ def run_lemma(I: Interp, c: 'Lemma', spec: dict, label: str, path: Path) -> None
                     try:
                         I.exec_block(loop.body, env)
                         vals['exit_kind'] = 'normal'
+                    except _Return as ret:
+                        vals['exit_kind'] = 'return'
+                        vals['result'] = ret.value
                     except _BreakExc:
                         vals['exit_kind'] = 'break'
                     except _ContinueExc:
